@@ -22,7 +22,7 @@ TRUSTED_BASE = [
 
 
 def check_property(pid, tier, seed, args, t0):
-    funcs, lemmas = CLI.select_tasks(pid)
+    funcs, lemmas = CLI.select_tasks(pid, all_funcs=args.record_expected)
     C = RUN._STATE['contracts']
     tasks = [('lemma', n, seed, tier) for n in lemmas] + [('func', q, seed, tier) for q in funcs]
     results = CLI.run_pool(tasks, args.jobs)
@@ -51,6 +51,8 @@ def check_property(pid, tier, seed, args, t0):
             info['obligations'] = len(r['obligations'])
             functions.append(info)
             inlined.update(info.get('inlined', []))
+            for ap in info.get('assumed_preconditions', []):
+                assumed.add('assumed precondition (protocol): ' + ap)
             unverified_termination.update(info.get('unverified_termination', []))
         for o in r['obligations']:
             o['task'] = name
